@@ -154,8 +154,15 @@ def r14_2(ctx: Ctx) -> None:
         t = tries[0]
         body_adds = [c for st in t.body for c in calls(st) if last_attr(c) == "add_component"]
         handler_adds = [c for h in t.handlers for st in h.body for c in calls(st) if last_attr(c) == "add_component"]
-        ok = len(body_adds) == 1 and len(handler_adds) == 1 and txt(body_adds[0].args[0]) == comp_var \
-            and txt(handler_adds[0].args[0]) == comp_var and len(t.handlers) == 1 \
+        def is_component(expr: ast.AST, at: ast.AST) -> bool:
+            """ the loop's component, or the fresh copy made of it (`Component(<it>.domain, ...)`) """
+            if txt(expr) == comp_var:
+                return True
+            resolved = inline_reaching(bcfg, at, expr, max_depth=0)
+            return isinstance(resolved, ast.Call) and call_name(resolved) == "Component" and resolved.args \
+                and txt(resolved.args[0]) == f"{comp_var}.domain"
+        ok = len(body_adds) == 1 and len(handler_adds) == 1 and is_component(body_adds[0].args[0], body_adds[0]) \
+            and txt(handler_adds[0].args[0]) == txt(body_adds[0].args[0]) and len(t.handlers) == 1 \
             and txt(t.handlers[0].type) == "IncompatibleComponentError"
         if ok:
             h = t.handlers[0]
